@@ -15,13 +15,17 @@ The functions follow the code (file + function):
   that copies bytes `0x20..0x7E` other than `"` and `\` without asking
   `is_printable`; that is the instance where `printable` is true on that range.)
   `unicodeEsc` = `core::char::EscapeUnicode` (`\u{` minimal lower-case hex `}`).
-* `replaceLt`   — `String::replace('<', "\\u003c")` (hydration_context/src/ssr.rs).
-  **Which emission sites apply it** (`Site`, `siteReplacesLt`):
-    - `Site.syncData`   `ResolvedData::write_to_buf`            — yes
-    - `Site.asyncData`  `AsyncDataStream::poll_next` (data arm) — yes
-    - `Site.initError`  `SsrSharedContext::pending_data` (`__SERIALIZED_ERRORS=[…]`) — **no**
-    - `Site.asyncError` `AsyncDataStream::poll_next` (`__SERIALIZED_ERRORS.push`)    — **no**
-* `syncEntry`   — `ResolvedData::write_to_buf`: `{id}: {ser:?}`.  `sync_buf` is
+* `jsFix`, `jsString` — `js_string` (hydration_context/src/ssr.rs, added by the repair
+  "fix: serialize hydration data and errors as JavaScript string literals …"): format with
+  `{:?}`, then rewrite the *formatted* text: `<` ↦ `\u003c`, the escape `\0` ↦ `\u0000`, every
+  other backslash pair copied.  **Every** emission site prints its string through it (`Site`,
+  `emitLit`): `syncData` `ResolvedData::write_to_buf`, `asyncData` `AsyncDataStream::poll_next`
+  (data arm), `initError` `pending_data` (`__SERIALIZED_ERRORS=[…]`), `asyncError` `poll_next`
+  (`__SERIALIZED_ERRORS.push`).
+* `replaceLt`, `siteReplacesLt`, `emitLitOld`, `dataStmtOld`, `errPushStmtOld`, `asyncChunkOld` —
+  the code **before** the repair (`replace('<', "\\u003c")` applied before `{:?}` at the two data
+  sites, nothing at the two error sites); kept for the regression witnesses F-C12-1/2/3.
+* `syncEntry`   — `ResolvedData::write_to_buf`: `{id}: {js_string(ser)}`.  `sync_buf` is
   never pushed to by any code in the crate, so this site is unreachable through
   the public API; as written its output (`[0: "x",]`) would be a JS SyntaxError.
 * `dataStmt`, `errPushStmt`, `asyncChunk` — `AsyncDataStream::poll_next`.
@@ -113,16 +117,36 @@ inductive Site where
   | syncData | asyncData | initError | asyncError
   deriving Repr, DecidableEq
 
-/-- which of them replace `<` first (data: yes; error messages: no) -/
+/-- before the repair: which sites replaced `<` first (data: yes; error messages: no) -/
 def siteReplacesLt : Site → Bool
   | .syncData => true
   | .asyncData => true
   | .initError => false
   | .asyncError => false
 
-/-- the string literal printed at a site -/
-def emitLit (p g : Nat → Bool) (site : Site) (s : Str) : Str :=
+/-- before the repair: the string literal printed at a site -/
+def emitLitOld (p g : Nat → Bool) (site : Site) (s : Str) : Str :=
   rustDebugStr p g (if siteReplacesLt site then replaceLt s else s)
+
+/-- `\u0000` -/
+def kNulEsc : Str := [92, 117, 48, 48, 48, 48]
+
+/-- the scanner of `js_string` over the text formatted by `{:?}` -/
+def jsFix : Str → Str
+  | [] => []
+  | c :: tl =>
+    if c = 60 then kLtEsc ++ jsFix tl
+    else if c = 92 then
+      match tl with
+      | [] => [92]
+      | d :: rest => (if d = 48 then kNulEsc else [92, d]) ++ jsFix rest
+    else c :: jsFix tl
+
+/-- `js_string(s)` -/
+def jsString (p g : Nat → Bool) (s : Str) : Str := jsFix (rustDebugStr p g s)
+
+/-- the string literal printed at a site (the same helper everywhere) -/
+def emitLit (p g : Nat → Bool) (_site : Site) (s : Str) : Str := jsString p g s
 
 /-! ## decimal numbers (`{}` of `usize`) -/
 
@@ -159,11 +183,11 @@ def kScriptOpen : Str := [60, 115, 99, 114, 105, 112, 116, 62]
 /-- `</script>` -/
 def kScriptClose : Str := [60, 47, 115, 99, 114, 105, 112, 116, 62]
 
-/-- `ResolvedData::write_to_buf`: `{id}: {ser:?}` -/
+/-- `ResolvedData::write_to_buf`: `{id}: {js_string(ser)}` -/
 def syncEntry (p g : Nat → Bool) (id : Nat) (v : Str) : Str :=
   decDigits id ++ [58, 32] ++ emitLit p g .syncData v
 
-/-- `__RESOLVED_RESOURCES[{id}] = {data:?};` -/
+/-- `__RESOLVED_RESOURCES[{id}] = {js_string(data)};` -/
 def dataStmt (p g : Nat → Bool) (id : Nat) (v : Str) : Str :=
   kResolvedIdx ++ decDigits id ++ kIdxEq ++ emitLit p g .asyncData v ++ [59]
 
@@ -214,6 +238,26 @@ def errStmts (p g : Nat → Bool) : List ErrRec → Str
 /-- one item of `AsyncDataStream` -/
 def asyncChunk (p g : Nat → Bool) (ready : List (Nat × Str)) (errs : List ErrRec) : Str :=
   dataStmts p g ready ++ errStmts p g errs
+
+/-! ### the printers before the repair (regression witnesses only) -/
+
+def dataStmtOld (p g : Nat → Bool) (id : Nat) (v : Str) : Str :=
+  kResolvedIdx ++ decDigits id ++ kIdxEq ++ emitLitOld p g .asyncData v ++ [59]
+
+def errPushStmtOld (p g : Nat → Bool) (b e : Nat) (msg : Str) : Str :=
+  kErrorsPush ++ (decDigits b ++ [44, 32] ++ decDigits e ++ [44, 32] ++ emitLitOld p g .asyncError msg ++ [93])
+    ++ [41, 59]
+
+def dataStmtsOld (p g : Nat → Bool) : List (Nat × Str) → Str
+  | [] => []
+  | (id, v) :: rest => dataStmtOld p g id v ++ dataStmtsOld p g rest
+
+def errStmtsOld (p g : Nat → Bool) : List ErrRec → Str
+  | [] => []
+  | (b, e, m) :: rest => errPushStmtOld p g b e m ++ errStmtsOld p g rest
+
+def asyncChunkOld (p g : Nat → Bool) (ready : List (Nat × Str)) (errs : List ErrRec) : Str :=
+  dataStmtsOld p g ready ++ errStmtsOld p g errs
 
 /-- `build_response`: `<script>{chunk}</script>` -/
 def wrapScript (chunk : Str) : Str := kScriptOpen ++ chunk ++ kScriptClose
